@@ -77,7 +77,7 @@ Qed.
 (* what is extracted is exactly the text between the opening '/' and the first '/' that is
    not escaped by an unpaired backslash *)
 Theorem extract_sound : forall content p, extract content = RxOk p ->
-  exists rest, content = [x2f] ++ p ++ [x2f] ++ rest /\ p <> [] /\
+  exists rest, content = [x2f] ++ p ++ [x2f] ++ rest /\
     has_unescaped_slash false p = false /\ ends_escaped false p = false.
 Proof.
   intros content p H. unfold extract in H.
@@ -86,22 +86,21 @@ Proof.
   destruct (scan_pattern false r []) as [q|] eqn:Hscan; [|discriminate].
   apply scan_pattern_sound in Hscan.
   destruct Hscan as (p' & rest & Hq & Hr & Hu & He). simpl in Hq. subst q.
-  destruct p' as [|a p'']; [discriminate|].
   inversion H; subst p.
   exists rest. rewrite (is_slash_eq c Hs), Hr.
-  repeat split; auto. discriminate.
+  repeat split; auto.
 Qed.
 
-Theorem extract_complete : forall p rest, p <> [] ->
+(* (since the fix "the regex type // is the empty pattern" also for p = []) *)
+Theorem extract_complete : forall p rest,
   has_unescaped_slash false p = false -> ends_escaped false p = false ->
   extract ([x2f] ++ p ++ [x2f] ++ rest) = RxOk p.
 Proof.
-  intros p rest Hne Hu He.
+  intros p rest Hu He.
   change (extract ([x2f] ++ p ++ [x2f] ++ rest))
     with (match scan_pattern false (p ++ [x2f] ++ rest) [] with
-          | Some [] => RxNoEnd | Some q => RxOk q | None => RxNoEnd end).
-  rewrite (scan_pattern_complete p false [] rest Hu He). simpl.
-  destruct p; [contradiction|reflexivity].
+          | Some q => RxOk q | None => RxNoEnd end).
+  rewrite (scan_pattern_complete p false [] rest Hu He). simpl. reflexivity.
 Qed.
 
 Theorem regex_len_is_token_length : forall content p, extract content = RxOk p ->
@@ -117,19 +116,19 @@ Theorem extract_deterministic_prefix : forall p rest rest',
   extract ([x2f] ++ p ++ [x2f] ++ rest') = RxOk p.
 Proof.
   intros p rest rest' H.
-  destruct (extract_sound _ _ H) as (r0 & _ & Hne & Hu & He).
+  destruct (extract_sound _ _ H) as (r0 & _ & Hu & He).
   apply extract_complete; assumption.
 Qed.
 
 (* the token is unique: the decomposition of extract_sound determines p *)
 Theorem extract_token_unique : forall p1 p2 rest1 rest2,
   [x2f] ++ p1 ++ [x2f] ++ rest1 = [x2f] ++ p2 ++ [x2f] ++ rest2 ->
-  p1 <> [] -> has_unescaped_slash false p1 = false -> ends_escaped false p1 = false ->
-  p2 <> [] -> has_unescaped_slash false p2 = false -> ends_escaped false p2 = false ->
+  has_unescaped_slash false p1 = false -> ends_escaped false p1 = false ->
+  has_unescaped_slash false p2 = false -> ends_escaped false p2 = false ->
   p1 = p2.
 Proof.
-  intros p1 p2 rest1 rest2 Heq N1 U1 E1 N2 U2 E2.
-  pose proof (extract_complete p1 rest1 N1 U1 E1) as H1.
-  pose proof (extract_complete p2 rest2 N2 U2 E2) as H2.
+  intros p1 p2 rest1 rest2 Heq U1 E1 U2 E2.
+  pose proof (extract_complete p1 rest1 U1 E1) as H1.
+  pose proof (extract_complete p2 rest2 U2 E2) as H2.
   rewrite Heq in H1. congruence.
 Qed.
